@@ -398,8 +398,11 @@ class InProtocolBase(ProtocolMixin):
         else:
             microsec = min(999999, int(round(float(microsec) * 1e6)))
 
-        return time(int(fields['hr']), int(fields['min']),
+        try:
+            return time(int(fields['hr']), int(fields['min']),
                                                    int(fields['sec']), microsec)
+        except ValueError as e:
+            raise ValidationError(string, "%%r: %s" % (e,))
 
     def time_from_bytes(self, cls, string):
         if isinstance(string, six.binary_type):
